@@ -52,24 +52,35 @@ func c10Check(r *ev.Run, alphabet []streamFrame, stats map[string]int64) func(ru
 		// which frames were complete before the failure / shutdown point
 		complete := 0
 		off := 0
-		for _, f := range run.frames {
+		rejected := make([]bool, len(run.frames))
+		nrej := 0
+		for i, f := range run.frames {
 			off += len(f)
 			if sc.FailAfter < 0 || off <= sc.FailAfter {
 				complete++
+				if alphabet[sc.Frames[i]].Rejected {
+					nrej++
+				}
 			}
+			rejected[i] = alphabet[sc.Frames[i]].Rejected
 		}
 		failing := sc.FailAfter >= 0 || sc.ShutAt >= 0
 		// (1) every delivered value is a non-nil message re-encoding to one of the complete frames, each at most once
 		used := make([]bool, len(run.frames))
 		order := ""
+		nils := 0
 		for di, d := range run.got {
+			if d.enc == nil && d.m == nil && nils < nrej {
+				nils++ // the nil the stream publishes for a frame its parser rejected
+				continue
+			}
 			if d.enc == nil {
 				bad("delivered-not-a-frame", fmt.Sprintf("delivery %d is nil or cannot be encoded", di))
 				return
 			}
 			found := -1
 			for fi := 0; fi < complete; fi++ {
-				if !used[fi] && bytes.Equal(run.frames[fi], d.enc) {
+				if !used[fi] && !rejected[fi] && bytes.Equal(run.frames[fi], d.enc) {
 					found = fi
 					break
 				}
@@ -98,6 +109,9 @@ func c10Check(r *ev.Run, alphabet []streamFrame, stats map[string]int64) func(ru
 		}
 		// (3) retained messages unchanged
 		for di, d := range run.got {
+			if d.m == nil {
+				continue
+			}
 			b, err, pn := safeEncode(d.m)
 			if pn != nil || err != nil || !bytes.Equal(b, d.enc) {
 				bad("retained-message-changed", fmt.Sprintf("the message delivered as number %d (%d bytes) no longer encodes to the bytes it had at delivery after later frames were received", di, len(d.enc)))
@@ -115,14 +129,14 @@ func c10Check(r *ev.Run, alphabet []streamFrame, stats map[string]int64) func(ru
 				bad("stuck", fmt.Sprintf("at quiescence a thread is blocked outside its idle point: %v; %d of %d frames delivered", st, len(run.got), len(run.frames)))
 				return
 			}
-			if len(run.got) != len(run.frames) {
+			if len(run.got)-nils != len(run.frames)-nrej {
 				var missing []int
 				for fi := range used {
-					if !used[fi] {
+					if !used[fi] && !rejected[fi] {
 						missing = append(missing, fi)
 					}
 				}
-				bad("lost", fmt.Sprintf("%d of %d frames were delivered; missing %v", len(run.got), len(run.frames), missing))
+				bad("lost", fmt.Sprintf("%d of %d decodable frames were delivered; missing %v", len(run.got)-nils, len(run.frames)-nrej, missing))
 				return
 			}
 			if nerr != 0 {
@@ -140,8 +154,8 @@ func c10Check(r *ev.Run, alphabet []streamFrame, stats map[string]int64) func(ru
 				return
 			}
 		}
-		stats["undelivered-after-failure"] += int64(complete - len(run.got))
-		r.Outcome(fmt.Sprintf("failure:delivered-%d-of-%d-complete", len(run.got), complete))
+		stats["undelivered-after-failure"] += int64(complete - nrej - (len(run.got) - nils))
+		r.Outcome(fmt.Sprintf("failure:delivered-%d-of-%d-complete", len(run.got)-nils, complete-nrej))
 	}
 }
 
@@ -152,7 +166,7 @@ func min(a, b int) int {
 	return b
 }
 
-// frame alphabet indices (streamFrames order): 0 echo(8) 1 hello(16) 2 error17(17) 3 packet-in 4 error3012
+// frame alphabet indices (streamFrames order): 0 echo(8) 1 hello(16) 2 error17(17) 3 packet-in 4 error3012 5 role-reply(24, rejected by the parser)
 func c10Scenarios(thorough bool, alphabet []streamFrame) (out []streamScenario, families map[string]int) {
 	families = map[string]int{}
 	add := func(fam string, sc streamScenario) {
@@ -318,6 +332,62 @@ func c10Scenarios(thorough bool, alphabet []streamFrame) (out []streamScenario, 
 					add("S-C recycling", streamScenario{Frames: seq, FailAfter: -1, Bound: b, Devs: true, Policy: pol, ShutAt: -1})
 				}
 			}
+		}
+	}
+	// oversize frames through the whole pool: 56 frames larger than a pool buffer's capacity (each
+	// grows the buffer it lands in), then small ones; and a frame the parser rejects followed by more
+	// frames than the pool has buffers (the buffer that held it comes round again)
+	if len(alphabet) > 4 {
+		var seq []int
+		for i := 0; i < 56; i++ {
+			seq = append(seq, 4)
+		}
+		seq = append(seq, 0, 1, 3, 0)
+		var perFrame []int
+		o := 0
+		for _, f := range seq[:len(seq)-1] {
+			o += len(alphabet[f].B)
+			perFrame = append(perFrame, o)
+		}
+		for _, pol := range []string{"reader-first", "consumer-first", "consumer-last"} {
+			add("S-C oversize frames through the whole pool", streamScenario{Frames: seq, Cuts: perFrame, FailAfter: -1, Bound: 0, Devs: true, Policy: pol, ShutAt: -1})
+		}
+		add("S-C oversize frames through the whole pool", streamScenario{Frames: seq, FailAfter: -1, Bound: 0, Devs: true, Policy: "parsers-first", ShutAt: -1})
+	}
+	if len(alphabet) > 5 && alphabet[5].Rejected {
+		for _, at := range []int{0, 3} {
+			var seq []int
+			for i := 0; i < 58; i++ {
+				if i == at || i == at+1 && at > 0 {
+					seq = append(seq, 5)
+				}
+				seq = append(seq, []int{0, 1, 2, 3}[i%4])
+			}
+			var perFrame []int
+			o := 0
+			for _, f := range seq[:len(seq)-1] {
+				o += len(alphabet[f].B)
+				perFrame = append(perFrame, o)
+			}
+			for _, pol := range []string{"reader-first", "parsers-first", "consumer-first", "consumer-last"} {
+				b := 0
+				if at == 0 && (pol == "reader-first" || pol == "consumer-last") {
+					b = 1
+				}
+				add("S-C rejected frame, then the pool goes round", streamScenario{Frames: seq, Cuts: perFrame, FailAfter: -1, Bound: b, Devs: true, Policy: pol, ShutAt: -1})
+				add("S-C rejected frame, then the pool goes round", streamScenario{Frames: seq, FailAfter: -1, Bound: 0, Devs: true, Policy: pol, ShutAt: -1})
+			}
+		}
+		// short sequences with the rejected kind: all interleavings
+		for _, seq := range [][]int{{5}, {5, 0}, {0, 5}, {5, 5}, {0, 5, 1}, {5, 3, 5}} {
+			var perFrame []int
+			o := 0
+			for _, f := range seq[:len(seq)-1] {
+				o += len(alphabet[f].B)
+				perFrame = append(perFrame, o)
+			}
+			add("S-B all interleavings", streamScenario{Frames: seq, Cuts: perFrame, FailAfter: -1, Bound: -1, ShutAt: -1})
+			add("S-B all interleavings", streamScenario{Frames: seq, FailAfter: -1, Bound: -1, ShutAt: -1})
 		}
 	}
 	// ---- S-D: failure after every byte count, all interleavings; local shutdown
